@@ -175,7 +175,8 @@ func (L *Layout) leaves(t types.Type, off int64, path string) []Leaf {
 	}
 	if isMathBigInt(t) {
 		// val: the mathematical value; backing (ghost): the BigInt whose inline words the header points at (0: own storage)
-		return []Leaf{{Key: "MathBig.val", Off: off, Sort: SInt, Path: path + ".val"}, {Key: "MathBig.backing", Off: off, Sort: SInt, Path: path + ".backing"}}
+		// nz (ghost): the sign flag is set; negzero(p) := nz(p) && val(p) == 0 is the one ill-formed state math/big can hand back
+		return []Leaf{{Key: "MathBig.val", Off: off, Sort: SInt, Path: path + ".val"}, {Key: "MathBig.backing", Off: off, Sort: SInt, Path: path + ".backing"}, {Key: "MathBig.nz", Off: off, Sort: SBool, Path: path + ".nz"}}
 	}
 	switch u := t.Underlying().(type) {
 	case *types.Struct:
